@@ -202,7 +202,56 @@ func (g Graph) simulate(recursionAllowed bool) (trace []int, reenters bool) {
 func checkGraph(g Graph, recursionAllowed bool, st *fw.Stats) []finding {
 	fs := checkGraphVia(g, recursionAllowed, false, st)
 	// the same call graph entered by the host (starlark.Call on a thread with an empty stack)
-	return append(fs, checkGraphVia(g, recursionAllowed, true, st)...)
+	fs = append(fs, checkGraphVia(g, recursionAllowed, true, st)...)
+	// and with every "second closure" edge leading into a second instance of the same program
+	// (one Program initialised twice: the two modules share every function code)
+	for _, e := range g.Edges {
+		if e.Kind == eTwin {
+			fs = append(fs, checkGraphTwoInstances(g, recursionAllowed, st)...)
+			break
+		}
+	}
+	return fs
+}
+
+func checkGraphTwoInstances(g Graph, recursionAllowed bool, st *fw.Stats) []finding {
+	o := Opts{Recursion: recursionAllowed}
+	text := strings.TrimSuffix(g.programText(), fmt.Sprintf("f0(%d)\n", recDepth))
+	for i := 0; i < g.N; i++ {
+		// f<i>b is no longer a second closure of this module but f<i> of the other instance
+		text = strings.Replace(text, fmt.Sprintf("f%db = mk%d()\n", i, i), "", 1)
+		text = strings.ReplaceAll(text, fmt.Sprintf("f%db(d - 1)", i), fmt.Sprintf("peer(\"f%d\")(d - 1)", i))
+	}
+	want, reenters := g.simulate(recursionAllowed)
+	pr := runProdTwoInstances(text, o, "f0", recDepth)
+	if st != nil {
+		st.Evals++
+		st.Outcome("recursion:two-instances")
+	}
+	bad := ""
+	isRec := strings.Contains(pr.Runtime, "recursive")
+	switch {
+	case pr.Panic != "":
+		bad = "panic: " + pr.Panic
+	case pr.Static:
+		bad = fmt.Sprintf("statically rejected at %d:%d: %s", pr.Line, pr.Col, pr.Msg)
+	case reenters && !isRec:
+		bad = fmt.Sprintf("a function code already active (in the other instance of the program) is re-entered but the run did not fail with the recursion error (error %q)", pr.Runtime)
+	case !reenters && pr.Runtime != "":
+		bad = fmt.Sprintf("no active function code is re-entered (Recursion=%v) but the run failed: %s", recursionAllowed, pr.Runtime)
+	}
+	_ = want
+	if bad == "" {
+		return nil
+	}
+	group := fmt.Sprintf("recursion(two instances of one program):rec=%d", b2i(recursionAllowed))
+	bits := 0
+	if recursionAllowed {
+		bits = 32
+	}
+	gg := g
+	return []finding{{group + ":-", group + ":-:" + g.String(), bad + " | program (initialised twice; peer(name) is the other instance's global; the host calls f0(4) of the first): " + strings.ReplaceAll(text, "\n", "\\n"),
+		Case{Part: "recursion2", Graph: &gg, Opts: bits, Text: text}}}
 }
 
 func checkGraphVia(g Graph, recursionAllowed, hostCall bool, st *fw.Stats) []finding {
